@@ -10,7 +10,7 @@
 //	fetch <u> <w>      a Sync Interest of w announces w's current advertisement number to u (real
 //	                   advertSyncOnInterest); if it is newer than what u remembers u fetches w's current
 //	                   advertisement and the reply goes through the real advertDataHandler / ribUpdate
-//	                                                         => <dump of u> ann=ok | skip
+//	                                                         => <dump of u> started=<0|1> ann=ok | skip
 //	snap <u> <w>       same announcement, but the reply (w's advertisement as of now) stays in flight
 //	                                                         => <dump of u> started=<0|1> ann=ok | skip
 //	reply <u> <w> <i|last>  the reply of the i-th fetch started by `snap u w` reaches u's advertDataHandler
@@ -21,6 +21,11 @@
 //	dead <u> <w>       u's dead-neighbor check removes w     => <dump of u> | skip
 //	sweep <u> <w1,w2,..> ONE dead-neighbor check of u finds all of them dead => <dump of u> | skip
 //	check              dump of every router                  => r0 <dump> ; r1 <dump> ; ...
+//	tick               more than a dead interval passes: heartbeats with unchanged numbers over the up
+//	                   links (real advertSyncOnInterest), then the deadcheck sweep at every router
+//	                                                         => r0 <dump> ; r1 <dump> ; ...
+//	restart <x>        router x crashes and boots again (real NewRouter: boot sequence number from the
+//	                   clock, empty tables); its neighbours keep what they remember   => <dump of x> ann=ok
 package c18
 
 import (
@@ -282,9 +287,35 @@ func (h *hgen) reorder() {
 func (h *hgen) converge() {
 	h.rounds(boundRounds)
 	h.g.Op("check")
+	if h.r.Chance(1, 3) {
+		// stable links: more than a dead interval of heartbeats and a deadcheck sweep change nothing
+		h.g.Op("tick")
+		h.g.Stat("tick")
+	}
 	h.round()
 	h.g.Op("check")
 	h.g.Stat("quiescence-check")
+}
+
+// a router restarts soon after it (and its neighbours) learnt something: the neighbours remember a
+// sequence number of the old instance, the new instance has to be fetched from again
+func (h *hgen) earlyRestart() {
+	x := h.r.Intn(h.t.n)
+	nb := h.incident(x)
+	if len(nb) == 0 {
+		return
+	}
+	h.g.Stat("restart-episode")
+	for _, e := range nb {
+		h.g.Op("fetch %d %d", x, e.b)
+	}
+	for _, e := range nb {
+		h.g.Op("fetch %d %d", e.b, x)
+	}
+	if h.r.Chance(1, 2) {
+		h.randomFetches(h.r.Intn(h.t.n))
+	}
+	h.g.Op("restart %d", x)
 }
 
 // remove the given links; the dead-neighbor detections are delivered at random points of a stretch
@@ -377,11 +408,19 @@ func (h *hgen) history(t *topo, cycles int) {
 		h.g.Stat("link")
 	}
 	if h.r.Chance(1, 3) {
+		h.earlyRestart()
+	}
+	if h.r.Chance(1, 3) {
 		h.randomFetches(h.r.Intn(3 * t.n))
 	}
 	h.converge()
 	if h.r.Chance(1, 2) {
 		h.reorder()
+		h.converge()
+	}
+	if h.r.Chance(1, 4) {
+		h.g.Op("restart %d", h.r.Intn(t.n))
+		h.g.Stat("restart-late")
 		h.converge()
 	}
 	for c := 0; c < cycles; c++ {
@@ -540,10 +579,12 @@ func exec(op string) string {
 			return "skip"
 		}
 		u, w := a[0], a[1]
-		for _, p := range sim.SyncInterest(u, sim.Nodes[w].Name, dvsim.FaceOf(w), true, ver[w]) {
+		started := 0
+		for _, p := range sim.SyncInterest(u, sim.Nodes[w].Name, dvsim.FaceOf(w), true, sim.Nodes[w].R.VerifAdvertSeq()) {
 			sim.ReplyAdvert(p, sim.AdvertWire(w)) // answered at once with w's current advertisement
+			started = 1
 		}
-		return sim.DumpRib(u) + touched(u)
+		return sim.DumpRib(u) + fmt.Sprintf(" started=%d", started) + touched(u)
 	case "snap":
 		a, ok := valid(f, 2)
 		if !ok || a[0] == a[1] || !link[a[0]][a[1]] {
@@ -551,7 +592,7 @@ func exec(op string) string {
 		}
 		u, w := a[0], a[1]
 		started := 0
-		for _, p := range sim.SyncInterest(u, sim.Nodes[w].Name, dvsim.FaceOf(w), true, ver[w]) {
+		for _, p := range sim.SyncInterest(u, sim.Nodes[w].Name, dvsim.FaceOf(w), true, sim.Nodes[w].R.VerifAdvertSeq()) {
 			flights[[2]int{u, w}] = append(flights[[2]int{u, w}], flight{p, sim.AdvertWire(w)})
 			started = 1
 		}
@@ -622,9 +663,29 @@ func exec(op string) string {
 			return "skip"
 		}
 		return sim.DumpRib(u) + touched(u)
-	case "check":
+	case "restart":
+		a, ok := valid(f, 1)
+		if !ok {
+			return "skip"
+		}
+		x := a[0]
+		sim.Restart(x)
+		for k := range flights {
+			if k[0] == x {
+				delete(flights, k) // replies to the crashed instance are lost
+			}
+		}
+		lastAdv[x], lastSeq[x] = advText(x), sim.Nodes[x].R.VerifAdvertSeq()
+		return sim.DumpRib(x) + " ann=ok"
+	case "tick", "check":
 		if sim == nil {
 			return "skip"
+		}
+		if f[0] == "tick" {
+			sim.Tick(func(u, w int) bool { return link[u][w] })
+			for i := range sim.Nodes {
+				touched(i)
+			}
 		}
 		parts := make([]string, len(sim.Nodes))
 		for i := range sim.Nodes {
